@@ -263,7 +263,8 @@ def cross_check_reference(ctx):
     leanf = os.path.join(V.BUILD, "tmp", "c19-ref-%d.lean" % os.getpid())
     with open(leanf, "w") as f:
         f.write("\n".join(lines) + "\n")
-    rc, out = V.sh(["lake", "env", "lean", leanf], cwd=V.LEAN, timeout=600)
+    with V.Lock("lean"):
+        rc, out = V.sh(["lake", "env", "lean", leanf], cwd=V.LEAN, timeout=1200)
     os.unlink(leanf)
     got = [l for l in out.splitlines() if l.startswith("wf ") or l.startswith("nwf ")]
     bad = []
@@ -300,6 +301,7 @@ SPEC = {
     "theorems": [T + n for n in [
         "tables_pinned", "checked_sites", "get_matches_spec", "check_sound_agree", "check_sound",
         "reported_sizes_true", "rejected_differs", "check_complete", "check_total", "vector_free_agree",
+        "agree_iff_same_size_and_offsets", "rejected_really_differs", "check_complete_fields",
         "collection_sites_covered", "diagnostic_pinned", "property_uses_collected", "check_layout_sound",
         "check_layout_reports_true_sizes", "buffer_arrays_not_validated",
         "check_sound_full", "reported_sizes_true_full", "no_layout_no_verdict", "check_complete_partial",
